@@ -184,6 +184,22 @@ def close_surrogate(a, m, scale, res=None):
     return R.close_plain(2.0 ** -a, 2.0 ** -m, scale)
 
 
+def check_translated(res, kname, case, gout, out, a, pub, close_to_impl):
+    """the TRANSLATED kernel's value (driver, `gmetric`) against the real numba kernel under the same tolerance rule as the
+    model's (`translated-kernel:<kernel>`), and against the hand-written model bit for bit (`translated-kernel-vs-model:`:
+    Props/C07.lean proves them equal on every carrier, the driver's Float included)"""
+    res.count("translated:compared")
+    if gout in ("bad-op", "oob"):
+        res.corr_fail("translated-kernel:" + kname, case, gout, a)
+        return
+    if gout != out:
+        tm, mm = from_bits64(gout), from_bits64(out)
+        if not (math.isnan(tm) and math.isnan(mm)):
+            res.corr_fail("translated-kernel-vs-model:" + kname, case, mm, tm)
+    if not close_to_impl(from_bits64(gout)):
+        res.corr_fail("translated-kernel:" + kname, case, from_bits64(gout), a)
+
+
 def run_model(res, rng, n_cases):
     """n_cases pairs per kernel (named metrics and surrogates) and 64*n_cases values per correction."""
     cmds, meta = [], []
@@ -202,8 +218,11 @@ def run_model(res, rng, n_cases):
                 extra, args = " | " + f64bits(p), [p]
             cmds.append("metric %s | %s | %s%s" % (kname, bits_row64(x), bits_row64(y), extra))
             meta.append((kname, pub, kind, x, y, args, f))
-    outs = run_driver(cmds) if cmds else []
-    for (kname, pub, kind, x, y, args, f), out in zip(meta, outs):
+    # every case is ALSO run through the TRANSLATED kernel (Gen/MetricKernels.lean, regenerated from the source text of
+    # distances.py by harness/translate_metrics.py; driver command `gmetric`, same protocol)
+    outs = run_driver(cmds + ["g" + c for c in cmds]) if cmds else []
+    outs, gouts = outs[:len(cmds)], outs[len(cmds):]
+    for (kname, pub, kind, x, y, args, f), out, gout in zip(meta, outs, gouts):
         case = {"kernel": kname, "gen": kind, "x": x.tolist(), "y": y.tolist(), "args": args}
         zx, zy = not np.any(x), not np.any(y)
         res.case(("model", kname, x.tobytes().hex(), y.tobytes().hex(), repr(args)),
@@ -228,6 +247,9 @@ def run_model(res, rng, n_cases):
                 ok = True                           # same (undefined) value; the NaN clause is c07.py's business
             else:
                 ok = R.close(a, m, pub, scale)
+        check_translated(res, kname, case, gout, out, a, pub,
+                         (lambda t: close_surrogate(a, t, max(1.0, len(x) / 8.0), res)) if pub is None
+                         else (lambda t: (math.isnan(a) and math.isnan(t)) or R.close(a, t, pub, scale)))
         if not ok:
             res.corr_fail("metric_model:" + kname, case, m, a)
             if pub is not None:
@@ -247,7 +269,9 @@ def run_model(res, rng, n_cases):
         np.array([0.0, -0.0, 1.0, 1e-7, 9.9e-8, 1.1e-7, 2.0 ** -23, 149.0, 150.0, 1074.0, 1075.0, 1e30, F32MAX, np.inf]),
     ]).astype(np.float32)
     cmds = ["corr %s | %s" % (cname, bits_row64(vals.astype(np.float64))) for cname in CORRECTIONS]
-    outs = run_driver(cmds)
+    gnames = [c for c in CORRECTIONS if not c.startswith("sparse_")]       # the dense ufuncs are translated
+    outs = run_driver(cmds + ["gcorr %s | %s" % (c, bits_row64(vals.astype(np.float64))) for c in gnames])
+    gouts = dict(zip(gnames, outs[len(cmds):]))
     for cname, out in zip(CORRECTIONS, outs):
         uf, pub = CORRECTIONS[cname]
         if out == "bad-op":
@@ -256,6 +280,15 @@ def run_model(res, rng, n_cases):
         ms = [from_bits64(t) for t in out.split()]
         with np.errstate(all="ignore"):
             a = np.asarray(uf(vals), dtype=np.float64)
+        if cname in gouts:
+            gts = gouts[cname].split()
+            if gouts[cname] != out:                 # the refinement holds on every Arith carrier: bit for bit
+                res.corr_fail("translated-kernel-vs-model:" + cname, {"correction": cname}, out[:200], gouts[cname][:200])
+            for v, ai, t in zip(vals, a, gts):
+                res.count("translated:compared")
+                ti = from_bits64(t) if t != "oob" else float("nan")
+                if t == "oob" or not ((math.isnan(ai) and math.isnan(ti)) or R.close(ai, ti, pub)):
+                    res.corr_fail("translated-kernel:" + cname, {"correction": cname, "v": float(v), "bits": f32bits(v)}, t if t == "oob" else ti, float(ai))
         for v, ai, mi in zip(vals, a, ms):
             res.case(("corr", cname, f32bits(v)), True)
             res.count("corr_model:" + cname)
